@@ -63,35 +63,7 @@ Fixpoint first_diff (i : N) (a b : list (N * ev)) : option N :=
   | _, _ => Some i
   end.
 
-(* ---- the property, on what the implementation did *)
-Fixpoint sum_timeouts (k : nat) (cur : N) : N :=
-  match k with O => 0 | S k' => cur + sum_timeouts k' (backoff cur) end.
-Definition delays (fs : list fault) : N :=
-  fold_left (fun a f => match f_kind f with FDelay => a + f_ms f | _ => a end) fs 0.
-(* time allowed to a handshake hit by the faults fs: one retransmission timeout of the schedule
-   per fault, plus the injected delays (and one millisecond per serialised simultaneous expiry) *)
-Definition allowed (fs : list fault) : N := sum_timeouts (length fs) t_init + delays fs + N.of_nat (length fs).
-
-Fixpoint expiry_before_done (cd sd : bool) (t : list (N * ev)) : bool :=
-  match t with
-  | [] => false
-  | (_, EDone Cl true) :: r => expiry_before_done true sd r
-  | (_, EDone Sv true) :: r => expiry_before_done cd true r
-  | (_, EExpire _) :: r => negb (cd && sd) || expiry_before_done cd sd r
-  | _ :: r => expiry_before_done cd sd r
-  end.
-Fixpoint got_before_done (cd sd : bool) (t : list (N * ev)) : bool :=
-  match t with
-  | [] => false
-  | (_, EDone Cl true) :: r => got_before_done true sd r
-  | (_, EDone Sv true) :: r => got_before_done cd true r
-  | (_, EGot Cl) :: r => negb cd || got_before_done cd sd r
-  | (_, EGot Sv) :: r => negb sd || got_before_done cd sd r
-  | _ :: r => got_before_done cd sd r
-  end.
-Definition late (s : side) (fs : list fault) (t : list (N * ev)) : bool :=
-  match done_time s t with Some d => allowed fs <? d | None => true end.
-
+(* ---- the property, on what the implementation did (predicates: Model/DSim.v) *)
 (* 1 a fault-free handshake needed a retransmission timeout; 2 an endpoint did not complete;
    3 both completed but disagree on the negotiated parameters; 4 application data did not flow
    in both directions; 5 completion later than the retransmission schedule allows;
